@@ -241,6 +241,39 @@ example : NoRearmTrace cx0Cfg (traceOf cx0Cfg init
      .send .recovery (cxEnv 300 0 true), .send .problem (cxEnv 400 2 true)]) := by
   unfold NoRearmTrace; decide
 
+/-- **forced_timer_notifications_are_owed** ("forced notifications bypass every filter" — only they).  The timer never
+    forces anything of its own: in every trace, a forced event of a timer run has the type of an earlier forced request
+    that produced no notification when it arrived (stashed during the cold-start phase or queued behind the stash). -/
+theorem forced_timer_notifications_are_owed (c : Cfg) (ops : List Op) : owedTrace (traceOf c init ops) = none := by
+  unfold owedTrace
+  exact runTrace_ok owedObs OwedInv (fun _ => True) c (fun g s op hi _ => owed_op c g s op hi) ops [] init
+    (fun p hp => by simp [init] at hp) (fun _ _ => trivial)
+
+/-- **timer_forced_only_from_stash**: from any state, every forced event of one timer run is the replay of a stashed
+    request `(type, force = true)`, and whatever is still stashed afterwards was stashed before. -/
+theorem timer_forced_only_from_stash (c : Cfg) (s : St) (e : Env) :
+    (∀ p ∈ (tickStep c s e).1.stash, p ∈ s.stash) ∧
+    ∀ ev ∈ (tickStep c s e).2, ev.force = true → (ev.ty, true) ∈ s.stash :=
+  tick_forced_from_stash c s e
+
+/-- The specification rejects a forced notification out of the timer that no forced request is waiting for … -/
+example : specTrace cxAll [⟨.send, cxEnv 100 2 true, [], false, some .problem⟩,
+    ⟨.tick, cxEnv 110 2 true, [⟨.problem, false, true, true, [0, 1]⟩], false, none⟩] = some .forceClaim := by decide
+/-- … and accepts it after a forced request that went unanswered (cold start). -/
+example : specTrace cxAll [⟨.send, { cxEnv 100 2 true with force := true, authUpdated := false }, [], false, some .problem⟩,
+    ⟨.tick, cxEnv 110 2 true, [⟨.problem, false, true, true, [0, 1]⟩], false, none⟩] = none := by decide
+
+/-- **forced_bypasses_user_filters** ("forced notifications bypass every filter except the user's enable flag", the positive
+    half).  In every trace, a forced notification of a type without per-user incident rules (everything but Problem,
+    Recovery, Acknowledgement) that is sent at all reaches every attached user whose enable flag is set, whatever the
+    users' periods, type filters and state filters say. -/
+theorem forced_bypasses_user_filters (c : Cfg) (s : St) (ops : List Op) : bypassTrace (traceOf c s ops) = true :=
+  bypassTrace_ok c ops s
+
+/-- The specification rejects a forced Custom notification that skips an enabled user (whose period is closed). -/
+example : specTrace cxAll [⟨.send, { cxEnv 100 2 true with force := true, users := [cxUser 0 true, { cxUser 1 true with periodOpen := false }] },
+    [⟨.custom, false, true, true, [0]⟩], false, some .custom⟩] = some .forcedBypass := by decide
+
 /- **model_trace_meets_spec** (the whole property) — full statement, false of the unchanged code because of F-C03b and F-C03c:
 
      theorem model_trace_meets_spec (c : Cfg) (ops : List Op) : specTrace c (traceOf c init ops) = none -/
@@ -254,15 +287,18 @@ theorem model_trace_meets_spec_partial (c : Cfg) (ops : List Op)
     specTrace c (traceOf c init ops) = none := by
   unfold specTrace
   rw [delivery_only_if, recovery_ack_recipients_partial c ops h, no_duplicate_problem, reminder_spacing_partial c ops h0,
-    heldTrace_ok]
+    heldTrace_ok, forced_timer_notifications_are_owed, forced_bypasses_user_filters]
+  rfl
 
 /-- … and `recoveryAckRecipients` and `reminderInterval0` are the only clauses that can fail without the hypotheses:
     every other checker — and the reminder checker in the code's weaker reading of interval 0 — accepts every trace of
     the model. -/
 theorem model_trace_other_clauses (c : Cfg) (ops : List Op) :
     deliveryTrace c (traceOf c init ops) = none ∧ noDupTrace (traceOf c init ops) = none ∧
-    reminderTraceLoose c (traceOf c init ops) = none ∧ heldTrace (traceOf c init ops) = none :=
-  ⟨delivery_only_if c init ops, no_duplicate_problem c ops, reminder_spacing_rearmed c ops, heldTrace_ok c ops init⟩
+    reminderTraceLoose c (traceOf c init ops) = none ∧ heldTrace (traceOf c init ops) = none ∧
+    owedTrace (traceOf c init ops) = none ∧ bypassTrace (traceOf c init ops) = true :=
+  ⟨delivery_only_if c init ops, no_duplicate_problem c ops, reminder_spacing_rearmed c ops, heldTrace_ok c ops init,
+   forced_timer_notifications_are_owed c ops, forced_bypasses_user_filters c init ops⟩
 
 theorem model_trace_meets_spec_counterexample :
     specTrace cxAll (traceOf cxAll init cxDropOps) = some .recoveryAckRecipients := by
@@ -331,5 +367,91 @@ example : specTrace exCfg [⟨.tick, exEnv 120 100 2, [⟨.problem, true, true, 
 /-- … and, with interval 0, any reminder after the Problem. -/
 example : specTrace { exCfg with interval := 0 } [⟨.send, exEnv 120 100 2, [⟨.problem, false, true, false, [0]⟩], false, none⟩,
     ⟨.tick, exEnv 500 100 2, [⟨.problem, true, true, false, [0]⟩], false, none⟩] = some .reminderInterval0 := by decide
+
+/-! ## The checkable's side: a notification is forced only if ITS request was forced
+
+  Checkable-level sequences: a requester sets force_next_notification (`setForce`), the checkable raises requests (`send`,
+  whose `force` is the model's flag, not an input), the timer runs, and the notification object may not (yet) be
+  registered with the checkable (`attach`).  The specification derives "this request was forced" from the observed
+  sequence (`reqForced`: a `setForce` since the checkable's previous request, seen by the object or not). -/
+
+/-- **force_is_one_shot**.  Every request consumes force_next_notification — also one that reaches no notification
+    object (checkable-notification.cpp:39-41 come before the bail-out at :58-63) — and it stays unset until a requester
+    sets it again: whatever happens in between (requests, timer runs, objects attached or removed). -/
+theorem force_is_one_shot (c : Cfg) (k : CkSt) (s : St) (ty : NType) (e : Env) (mid : List COp)
+    (hmid : ∀ op ∈ mid, op ≠ COp.setForce) :
+    (crun c k s (.send ty e :: mid)).1.force = false := by
+  simp only [crun, cApply]
+  cases ha : k.attached
+  · simp only [Bool.false_eq_true, if_false]; exact crun_force_false c mid _ _ rfl hmid
+  · simp only [if_true]; exact crun_force_false c mid _ _ rfl hmid
+
+/-- **checkable_trace_refines**.  What a notification object sees of a checkable-level sequence, with the specification's
+    own force bit on every request, is exactly the trace of the one-object model on the lowered operations — so every
+    theorem above transfers. -/
+theorem checkable_trace_refines (c : Cfg) (cops : List COp) (k : CkSt) (s : St) :
+    reqForced k.force (ctraceOf c k s cops) = traceOf c s (lower k cops) :=
+  reqForced_ctraceOf c cops k s
+
+/-- **delivery_only_if_checkable** (first sentence, at the level of the checkable).  For every sequence of setForce /
+    attach / request / timer operations: every delivery satisfies the only-if conditions, where "forced" is granted only
+    to a request that a `setForce` preceded with no other request of the checkable in between (clause
+    forced_only_if_force_next_notification_was_set, evaluated against the specification's own bit). -/
+theorem delivery_only_if_checkable (c : Cfg) (cops : List COp) :
+    deliveryTrace c (reqForced false (ctraceOf c {} init cops)) = none := by
+  have h := checkable_trace_refines c cops {} init
+  simp only at h
+  rw [h]; exact delivery_only_if c init _
+
+/-- **model_ctrace_meets_spec_partial**: the whole specification on checkable-level sequences, under the two hypotheses of
+    `model_trace_meets_spec_partial` (F-C03b, F-C03c). -/
+theorem model_ctrace_meets_spec_partial (c : Cfg) (cops : List COp)
+    (h : ∀ o ∈ reqForced false (ctraceOf c {} init cops), recoveryDropped o = false)
+    (h0 : NoRearmTrace c (reqForced false (ctraceOf c {} init cops))) :
+    specTraceC c (ctraceOf c {} init cops) = none := by
+  have hr := checkable_trace_refines c cops {} init
+  simp only at hr
+  unfold specTraceC
+  rw [hr] at h h0 ⊢
+  exact model_trace_meets_spec_partial c _ h h0
+
+/-- A forced Custom request for a checkable whose notification object is not registered yet; the object appears; an
+    ordinary Problem arrives which the type filter (Recovery only) does not admit: the model delivers nothing, and the
+    hypotheses of the theorem hold. -/
+def stickyCfg : Cfg := { cxCfg with typeFilter := 64 }
+def stickyOps : List COp :=
+  [.attach false, .setForce, .send .custom (cxEnv 100 0 true), .attach true, .send .problem (cxEnv 200 2 true)]
+example : (ctraceOf stickyCfg {} init stickyOps).length = 3 ∧
+    (reqForced false (ctraceOf stickyCfg {} init stickyOps)).map (fun o => (o.env.force, o.events)) = [(false, [])] ∧
+    specTraceC stickyCfg (ctraceOf stickyCfg {} init stickyOps) = none := by decide
+
+/-- The specification rejects the trace of an implementation whose flag survives the unseen request (the later Problem
+    bypasses the type filter as "forced") … -/
+example : specTraceC stickyCfg [.setForce, .unseen,
+    .op ⟨.send, { cxEnv 200 2 true with force := true }, [⟨.problem, false, true, true, [0, 1]⟩], false, some .problem⟩] =
+    some .forceClaim := by decide
+
+/-- … and accepts it when the forced request is the one right after `setForce`. -/
+example : specTraceC stickyCfg [.unseen, .setForce,
+    .op ⟨.send, { cxEnv 200 2 true with force := true }, [⟨.problem, false, true, true, [0, 1]⟩], false, some .problem⟩] =
+    none := by decide
+
+/-- **force_reaches_next_request**.  Once a requester has set force_next_notification it stays set — through timer runs and
+    through notification objects coming and going — until the checkable's next request, which is therefore forced. -/
+theorem force_reaches_next_request (c : Cfg) (k : CkSt) (s : St) (mid : List COp)
+    (hmid : ∀ op ∈ mid, ∀ ty e, op ≠ COp.send ty e) :
+    (ckRequest (crun c k s (.setForce :: mid)).1).2 = true := by
+  simp only [crun, cApply, ckRequest]
+  exact crun_force_true c mid _ _ rfl hmid
+
+/-- **model_trace_meets_spec_positive_interval**: for `interval > 0` the whole specification needs only the F-C03b
+    hypothesis. -/
+theorem model_trace_meets_spec_positive_interval (c : Cfg) (ops : List Op) (hpos : 0 < c.interval)
+    (h : ∀ o ∈ traceOf c init ops, recoveryDropped o = false) :
+    specTrace c (traceOf c init ops) = none := by
+  apply model_trace_meets_spec_partial c ops h
+  intro o _ ev _
+  have : ¬ c.interval ≤ 0 := by omega
+  simp [rearms, this]
 
 end Icinga.C03
